@@ -2726,7 +2726,8 @@ define_struct_type(InterrogateType &itype, CPPStructType *cpptype,
           if (nested_type->_ident != nullptr ||
               nested_type->as_enum_type() != nullptr) {
             TypeIndex nested_index = get_type(nested_type, false);
-            if (std::find(itype._nested_types.begin(), itype._nested_types.end(), nested_index) == itype._nested_types.end()) {
+            if (nested_index != 0 &&
+                std::find(itype._nested_types.begin(), itype._nested_types.end(), nested_index) == itype._nested_types.end()) {
               itype._nested_types.push_back(nested_index);
             }
           }
@@ -2747,7 +2748,8 @@ define_struct_type(InterrogateType &itype, CPPStructType *cpptype,
           if (nested_type->_ident != nullptr ||
               nested_type->as_enum_type() != nullptr) {
             TypeIndex nested_index = get_type(nested_type, false);
-            if (std::find(itype._nested_types.begin(), itype._nested_types.end(), nested_index) == itype._nested_types.end()) {
+            if (nested_index != 0 &&
+                std::find(itype._nested_types.begin(), itype._nested_types.end(), nested_index) == itype._nested_types.end()) {
               itype._nested_types.push_back(nested_index);
             }
           }
@@ -2760,7 +2762,9 @@ define_struct_type(InterrogateType &itype, CPPStructType *cpptype,
       // An anonymous enum type.
       if (type->_vis <= min_vis) {
         TypeIndex nested_index = get_type(type, false);
-        itype._nested_types.push_back(nested_index);
+        if (nested_index != 0) {
+          itype._nested_types.push_back(nested_index);
+        }
       }
 
     } else if ((*di)->get_subtype() == CPPDeclaration::ST_typedef) {
@@ -2779,19 +2783,24 @@ define_struct_type(InterrogateType &itype, CPPStructType *cpptype,
 
         if (type->_vis <= min_vis) {
           TypeIndex nested_index = get_type(type, false);
-          itype._nested_types.push_back(nested_index);
+          if (nested_index != 0) {
+            itype._nested_types.push_back(nested_index);
+          }
         }
       }
 
     } else if ((*di)->get_subtype() == CPPDeclaration::ST_make_property) {
       ElementIndex element_index = get_make_property((*di)->as_make_property(), cpptype, scope);
-      if (find(itype._elements.begin(), itype._elements.end(), element_index) == itype._elements.end()) {
+      if (element_index != 0 &&
+          find(itype._elements.begin(), itype._elements.end(), element_index) == itype._elements.end()) {
         itype._elements.push_back(element_index);
       }
 
     } else if ((*di)->get_subtype() == CPPDeclaration::ST_make_seq) {
       MakeSeqIndex make_seq_index = get_make_seq((*di)->as_make_seq(), cpptype);
-      itype._make_seqs.push_back(make_seq_index);
+      if (make_seq_index != 0) {
+        itype._make_seqs.push_back(make_seq_index);
+      }
     }
   }
 
